@@ -123,6 +123,13 @@ func generate(tier string, r *rng.R) []scenario {
 				add("ooo", false, init, ops...)
 			}
 		}
+		// [set-ooo] `set V` on a history that became non-linear: the initial files are applied, files are added
+		// (some below the latest applied version), then V is set to every version of the directory
+		if len(init)+len(later) <= 3 || thorough {
+			for _, f := range append(append(dirSpec{}, init...), later...) {
+				add("set-ooo", false, init, apply(0, "linear"), op{Kind: "add", Files: later}, op{Kind: "set", Arg: f.Ver}, apply(0, "non-linear"))
+			}
+		}
 	}
 	// [set]
 	for _, d := range allDirs([]string{"1", "2", "3"}) {
